@@ -128,10 +128,11 @@ def gen_program(r, ident, now):
         effects.append({'t': 'out', 'text': gen_text(r, ident, now)})
     if r.chance(0.3):
         effects.append({'t': 'err', 'text': gen_text(r, ident, now, 3)})
-    nfiles = r.weighted([(4, 0), (4, 1), (2, 2), (1, 3)])
+    nfiles = r.weighted([(4, 0), (4, 1), (2, 2), (1.5, 3)])
     layout = r.weighted([(4, 'cwd'), (2, 'subdir'), (1, 'tmpdir'),
                          (1.2 if nfiles >= 2 else 0, 'twodirs')])
     names = []
+    sibling = False
     same_base = r.pick(['out', 'result']) + r.pick(TEXT_EXTS)
     for j in range(nfiles):
         binary = r.chance(0.25)
@@ -139,7 +140,8 @@ def gen_program(r, ident, now):
         base = r.pick(['out', 'result', 'data', 'report-1', 'a b']) + \
             ('%d' % j if j else '')
         name = base + ext
-        if j == 1 and layout != 'twodirs' and r.chance(0.3):
+        if j == 1 and layout != 'twodirs' and r.chance(
+                0.3 if nfiles < 3 else 0.6):
             # a sibling of the first file whose name differs from it only
             # in punctuation (report-1.txt / report_1.txt): the same
             # identifier once non-alphanumerics are replaced
@@ -150,6 +152,14 @@ def gen_program(r, ident, now):
                 alt = r.pick([c for c in '-_. ' if c != first[k]])
                 name = first[:k] + alt + first[k + 1:]
                 binary = False
+                sibling = True
+        if j == 2 and sibling and layout != 'twodirs' and r.chance(0.6):
+            # ... and a third whose name is the first's with the number a
+            # generator might append to tell the two apart
+            first = names[0].split('/')[-1]
+            stem, dot, ext1 = first.partition('.')
+            name = stem + r.pick(['2', '1', '3']) + dot + ext1
+            binary = False
         if layout == 'twodirs':
             # same basename in different directories (the reference
             # directory is flat, so the names collide there)
